@@ -39,7 +39,11 @@ func (x *Exec) doCallVals(st *State, cc *ssa.CallCommon, fnv V, args []V, site s
 		return []Outcome{x.applyContract(st, fr, con, key, names, all, sig, site, nil)}
 	}
 	if fnv.K != KFunc {
-		unsup("call of a non-static function value in %s", fnKey(fr.fn))
+		// a function value that is not statically known: results unconstrained, heap havocked
+		x.warn("call of a function value that is not statically known in %s: results and heap havocked", fnKey(fr.fn))
+		sig := cc.Value.Type().Underlying().(*types.Signature)
+		con := &Contract{Func: "funcvalue", Assigns: []string{"H", "B+"}, AssignsSet: true, Trusted: true}
+		return []Outcome{x.applyContract(st, fr, con, "funcvalue", paramNames(sig), args, sig, site, nil)}
 	}
 	cl := fnv.Fn
 	if cl.builtin != "" {
@@ -47,6 +51,7 @@ func (x *Exec) doCallVals(st *State, cc *ssa.CallCommon, fnv V, args []V, site s
 	}
 	callee := cl.fn
 	key := fnKey(callee)
+	x.atCall(st, fr, key, args, site)
 	con, tp := x.contractFor(callee)
 	// bound method closures and synthetic wrappers are always inlined
 	synthetic := callee.Synthetic != ""
@@ -670,4 +675,46 @@ func (x *Exec) namedType(name string) types.Type {
 		return obj.Type()
 	}
 	return nil
+}
+
+// atCall proves the caller's `atcall <callee> <expr>` clauses at a call site of the function under analysis.
+func (x *Exec) atCall(st *State, fr *Frame, key string, args []V, site ssa.Instruction) {
+	if x.con == nil || fr.depth != 0 {
+		return
+	}
+	for i, ac := range x.con.AtCalls {
+		if ac.Name != key {
+			continue
+		}
+		vars := map[string]V{}
+		x.bindParams(vars, fr.fn, fr.args)
+		for obj, v := range fr.names {
+			if _, taken := vars[obj.Name()]; !taken {
+				vars[obj.Name()] = v
+			}
+		}
+		for k, v := range fr.entryVals {
+			vars[k] = v
+		}
+		for k, a := range args {
+			vars[fmt.Sprintf("arg%d", k)] = a
+		}
+		env := &CEnv{st: st, oldMem: fr.entryMem, headMem: fr.headMem, vars: vars, tparam: x.tparam, fn: x.key, prove: true}
+		for _, fv := range fr.fn.FreeVars {
+			if cv, ok := st.env[fv]; ok && cv.K == KPtr {
+				if env.cells == nil {
+					env.cells = map[string]V{}
+				}
+				cv.Typ = fv.Type()
+				env.cells[fv.Name()] = cv
+			}
+		}
+		name := x.instrName(fr, site, "call") + fmt.Sprintf(".atcall%d(%s)", i+1, key)
+		t, err := env.evalBool(ac.Expr)
+		if err != nil {
+			x.genFail(name, "atcall", ac.Tags, x.posOf(site.Pos()), err.Error())
+			continue
+		}
+		x.oblige(st, name, "atcall", x.tagsOr(ac.Tags, fr), t, x.posOf(site.Pos()), "at every call of "+key+": "+ac.Text)
+	}
 }
